@@ -97,6 +97,8 @@ impl Datagram {
 //@ derive
 //@ end
 
+/// what the peer is told: `config.datagram_receive_buffer_size.map(|x| x.min(u16::MAX.into()) as u16)`
+pub open spec fn advertised(window: usize) -> int { if window < 0xffff { window as int } else { 0xffff } }
 impl DatagramState {
     pub open spec fn wf(&self) -> bool {
         &&& self.recv_buffered == total(self.incoming@)
@@ -106,13 +108,15 @@ impl DatagramState {
 //@ extract quinn-proto/src/connection/datagrams.rs :: impl DatagramState::fn received
 //@ ret res
 //@ contract
-        requires old(self).wf(), old(self).recv_buffered + datagram.data@.len() <= usize::MAX,
+        requires old(self).wf(), old(self).recv_buffered + datagram.data@.len() <= usize::MAX, datagram.data@.len() < 0x4000_0000_0000_0000,
         ensures
             final(self).wf(),
             final(self).outgoing@ == old(self).outgoing@, final(self).outgoing_total == old(self).outgoing_total,
             match res {
                 Ok(was_empty) => {
-                    &&& window.is_some() && datagram.data@.len() <= window.unwrap()
+                    // RFC 9221 section 3: the advertised max_datagram_frame_size (the receive buffer size capped at u16::MAX, see
+                    // TransportParameters::new) limits the whole frame, which is at least one type byte larger than its payload
+                    &&& window.is_some() && 1 + datagram.data@.len() <= advertised(window.unwrap())
                     &&& final(self).recv_buffered <= window.unwrap()
                     &&& was_empty == (old(self).recv_buffered == 0)
                     // oldest dropped first, nothing else touched, new one at the back
@@ -124,7 +128,7 @@ impl DatagramState {
                 },
                 Err(e) => {
                     &&& e.code == Code::PROTOCOL_VIOLATION
-                    &&& (window.is_none() || datagram.data@.len() > window.unwrap())
+                    &&& (window.is_none() || 1 + datagram.data@.len() > advertised(window.unwrap()))
                     &&& final(self).incoming@ == old(self).incoming@
                 },
             },
